@@ -3,8 +3,10 @@ CONSTANTS
   MaxLen = 4
   Widths = {1, 2}
   NewlineRule = "lt"
+  EntryCopy = "same"
   ColMode = "bytes"
   EolEntry = TRUE
+  SymLineMap = "keep"
 INIT Init
 NEXT Next
 INVARIANTS PositionIsAdvance
